@@ -152,3 +152,94 @@ Section Coupling.
     apply (prod_exp n (fun i => imaskv@i * s@i)).
   Qed.
 End Coupling.
+
+(* ---- batch normalisation in evaluation mode: an element-wise map, so the Jacobian is diagonal ---- *)
+Definition Rbn_bwd := bn_bwd R 0 1 Rplus Rmult Rminus Rdiv exp ln sqrt.
+
+Lemma prod_exp_gen n (s : nat -> R) :
+  fold_right Rmult 1 (vec R n (fun i => exp (s i))) = exp (vsum R 0 Rplus (vec R n s)).
+Proof.
+  unfold vec, vsum. induction (seq 0 n) as [|k l IH]; simpl.
+  - now rewrite exp_0.
+  - rewrite IH, <- exp_plus. reflexivity.
+Qed.
+
+Section BN.
+  Variable n : nat.
+  Variables (eps : R) (w b rvar rmean : list R).
+  Hypothesis Hvar : forall i, (i < n)%nat -> 0 < rvar@i + eps.
+
+  Definition bn_map (x : list R) : list R := fst (Rbn_bwd n eps w b rvar rmean x).
+
+  Lemma bn_coord x i : (i < n)%nat ->
+    (bn_map x)@i = (x@i - rmean@i) / sqrt (rvar@i + eps) * exp w@i + b@i.
+  Proof. intros Hi. unfold bn_map, Rbn_bwd, bn_bwd. simpl. now rewrite Rvnth. Qed.
+
+  Theorem bn_jacobian_offdiag x i j : length x = n -> (i < n)%nat -> (j < n)%nat -> i <> j ->
+    is_derive (partial bn_map x i j) x@j 0.
+  Proof.
+    intros Hx Hi Hj Hij.
+    apply (is_derive_ext (fun _ => (bn_map x)@i)); [|apply @is_derive_const].
+    intro h. unfold partial. rewrite !bn_coord by auto. unfold Rupd. rewrite upd_nth_neq by auto. reflexivity.
+  Qed.
+
+  Theorem bn_jacobian_diag x i : length x = n -> (i < n)%nat ->
+    is_derive (partial bn_map x i i) x@i (exp (w@i - 1 / (1 + 1) * ln (rvar@i + eps))).
+  Proof.
+    intros Hx Hi.
+    apply (is_derive_ext (fun h => (h - rmean@i) / sqrt (rvar@i + eps) * exp w@i + b@i)); [|apply bn_bwd_derive; auto].
+    intro h. unfold partial. rewrite bn_coord by auto. unfold Rupd. rewrite upd_nth_eq by lia. reflexivity.
+  Qed.
+
+  Theorem bn_diag_product x :
+    fold_right Rmult 1 (vec R n (fun i => exp (w@i - 1 / (1 + 1) * ln (rvar@i + eps)))) = exp (snd (Rbn_bwd n eps w b rvar rmean x)).
+  Proof. unfold Rbn_bwd, bn_bwd. simpl. apply (prod_exp_gen n (fun i => w@i - 1 / (1 + 1) * ln (rvar@i + eps))). Qed.
+End BN.
+
+(* ---- logit preprocessing: element-wise, alpha in (0, 1/2), data in [0, 1] ---- *)
+Definition Rlogit_bwd := logit_bwd R 0 1 Rplus Rmult Rminus Ropp ln.
+Definition Rlogit_ldjc := logit_ldjc R 0 1 Rplus Rmult Rminus Ropp ln.
+
+Lemma ildj_sum_list a (xs : nat -> R) l :
+  vsum R 0 Rplus (map (fun i => Rlogit_ildj1 a (xs i)) l) =
+  - (vsum R 0 Rplus (map (fun i => Rlogit_v1 a (xs i)) l) + - (ofnat R 0 1 Rplus (length l) * ln (1 - (1 + 1) * a))).
+Proof.
+  unfold vsum. induction l as [|k l IH]; simpl.
+  - lra.
+  - rewrite IH. unfold Rlogit_ildj1, logit_ildj1, Rlogit_v1, two. lra.
+Qed.
+
+Section Logit.
+  Variable n : nat.
+  Variable a : R.
+  Hypothesis Ha : 0 < a < 1 / 2.
+
+  Definition logit_map (x : list R) : list R := fst (Rlogit_bwd n a (Rlogit_ldjc n a) x).
+
+  Lemma logit_coord x i : (i < n)%nat -> (logit_map x)@i = Rlogit_bwd1 a x@i.
+  Proof. intros Hi. unfold logit_map, Rlogit_bwd, logit_bwd. simpl. now rewrite Rvnth. Qed.
+
+  Theorem logit_jacobian_offdiag x i j : length x = n -> (i < n)%nat -> (j < n)%nat -> i <> j ->
+    is_derive (partial logit_map x i j) x@j 0.
+  Proof.
+    intros Hx Hi Hj Hij.
+    apply (is_derive_ext (fun _ => (logit_map x)@i)); [|apply @is_derive_const].
+    intro h. unfold partial. rewrite !logit_coord by auto. unfold Rupd. rewrite upd_nth_neq by auto. reflexivity.
+  Qed.
+
+  Theorem logit_jacobian_diag x i : length x = n -> (i < n)%nat -> 0 <= x@i <= 1 ->
+    is_derive (partial logit_map x i i) x@i (exp (Rlogit_ildj1 a x@i)).
+  Proof.
+    intros Hx Hi Hr.
+    apply (is_derive_ext (fun h => Rlogit_bwd1 a h)); [|now apply logit_bwd_derive].
+    intro h. unfold partial. rewrite logit_coord by auto. unfold Rupd. rewrite upd_nth_eq by lia. reflexivity.
+  Qed.
+
+  Theorem logit_diag_product x :
+    fold_right Rmult 1 (vec R n (fun i => exp (Rlogit_ildj1 a x@i))) = exp (snd (Rlogit_bwd n a (Rlogit_ldjc n a) x)).
+  Proof.
+    rewrite (prod_exp_gen n (fun i => Rlogit_ildj1 a x@i)). f_equal.
+    unfold vec. rewrite (ildj_sum_list a (fun i => x@i)). rewrite seq_length.
+    unfold Rlogit_bwd, logit_bwd, Rlogit_ldjc, logit_ldjc, vec, two. simpl. unfold Rlogit_v1. lra.
+  Qed.
+End Logit.
